@@ -97,3 +97,221 @@ pub proof fn lemma_qmap_insert(m: Map<String, Vec<String>>, k: String, v: Vec<St
     }
     assert(a =~= b);
 }
+
+// ---- canonical query string (C10): "lists every pair, duplicates and empty names or values included and only the
+//      X-Amz-Signature parameter excluded, once-encoded, ordered by encoded name and then by encoded value in code-point order
+//      and joined by '&'" ----
+/// lexicographic byte order (= code-point order on UTF-8)
+pub open spec fn bytes_lt(a: Seq<u8>, b: Seq<u8>) -> bool
+    decreases a.len()
+{
+    if b.len() == 0 { false }
+    else if a.len() == 0 { true }
+    else if a[0] != b[0] { a[0] < b[0] }
+    else { bytes_lt(a.drop_first(), b.drop_first()) }
+}
+pub open spec fn bytes_le(a: Seq<u8>, b: Seq<u8>) -> bool { a == b || bytes_lt(a, b) }
+/// by name, then by value
+pub open spec fn pair_le(p: Pair, q: Pair) -> bool { if p.0 == q.0 { bytes_le(p.1, q.1) } else { bytes_lt(p.0, q.0) } }
+pub open spec fn SIG() -> Seq<u8> { seq![0x58u8, 0x2d, 0x41, 0x6d, 0x7a, 0x2d, 0x53, 0x69, 0x67, 0x6e, 0x61, 0x74, 0x75, 0x72, 0x65] } // "X-Amz-Signature"
+pub open spec fn render_pair(p: Pair) -> Seq<u8> { p.0 + seq![0x3du8] + p.1 }
+pub open spec fn render(l: Seq<Pair>) -> Seq<u8>
+    decreases l.len()
+{
+    if l.len() == 0 { Seq::empty() }
+    else if l.len() == 1 { render_pair(l[0]) }
+    else { render(l.drop_last()) + seq![0x26u8] + render_pair(l.last()) }
+}
+/// how often the pair p must be listed for the parameter map m
+pub open spec fn pair_count(m: QMap, p: Pair) -> nat {
+    if p.0 != SIG() && m.contains_key(p.0) { m[p.0].to_multiset().count(p.1) } else { 0 }
+}
+/// l is THE canonical list of m: sorted by (name, value) and listing every pair of m exactly as often as it occurs
+pub open spec fn is_canon_list(m: QMap, l: Seq<Pair>) -> bool {
+    vstd::relations::sorted_by(l, |a: Pair, b: Pair| pair_le(a, b))
+    && forall|p: Pair| #[trigger] l.to_multiset().count(p) == pair_count(m, p)
+}
+/// s is the canonical query string of m
+pub open spec fn is_canon_query(m: QMap, s: Seq<u8>) -> bool {
+    exists|l: Seq<Pair>| is_canon_list(m, l) && s == render(l)
+}
+
+/// view of the code's `Vec<(&String, &String)>`
+pub open spec fn pv(r: Seq<(&String, &String)>) -> Seq<Pair> { Seq::new(r.len(), |i: int| (str_bytes(r[i].0@), str_bytes(r[i].1@))) }
+/// all pairs (kb, v) for v in vals
+pub open spec fn pairs_for(kb: Seq<u8>, vals: Seq<Seq<u8>>) -> Seq<Pair> { Seq::new(vals.len(), |i: int| (kb, vals[i])) }
+/// the multiset the code must have collected after visiting the first n map entries (in whatever order the HashMap yields them)
+pub open spec fn expected_ms(seq: Seq<(&String, &Vec<String>)>, n: int) -> Multiset<Pair>
+    decreases n
+{
+    if n <= 0 { Multiset::empty() }
+    else {
+        let kb = str_bytes(seq[n - 1].0@);
+        let rest = expected_ms(seq, n - 1);
+        if kb != SIG() { rest.add(pairs_for(kb, vals_bytes(seq[n - 1].1@)).to_multiset()) } else { rest }
+    }
+}
+
+// ---- lemmas (proved) ----
+pub proof fn lemma_pairs_for_count(kb: Seq<u8>, vals: Seq<Seq<u8>>, p: Pair)
+    ensures pairs_for(kb, vals).to_multiset().count(p) == (if p.0 == kb { vals.to_multiset().count(p.1) } else { 0 })
+    decreases vals.len()
+{
+    broadcast use vstd::seq_lib::group_to_multiset_ensures;
+    if vals.len() == 0 {
+        assert(pairs_for(kb, vals) =~= Seq::<Pair>::empty());
+        assert(vals =~= Seq::<Seq<u8>>::empty());
+    } else {
+        lemma_pairs_for_count(kb, vals.drop_last(), p);
+        assert(pairs_for(kb, vals) =~= pairs_for(kb, vals.drop_last()).push((kb, vals.last())));
+        assert(vals =~= vals.drop_last().push(vals.last()));
+    }
+}
+/// index below n of the entry whose key has bytes kb (-1 if none)
+pub open spec fn find_key(seq: Seq<(&String, &Vec<String>)>, n: int, kb: Seq<u8>) -> int
+    decreases n
+{
+    if n <= 0 { -1 } else if str_bytes(seq[n - 1].0@) == kb { n - 1 } else { find_key(seq, n - 1, kb) }
+}
+pub proof fn lemma_find_key(seq: Seq<(&String, &Vec<String>)>, n: int, kb: Seq<u8>)
+    requires 0 <= n <= seq.len()
+    ensures
+        find_key(seq, n, kb) == -1 ==> forall|j: int| 0 <= j < n ==> str_bytes(#[trigger] seq[j].0@) != kb,
+        find_key(seq, n, kb) != -1 ==> 0 <= find_key(seq, n, kb) < n && str_bytes(seq[find_key(seq, n, kb)].0@) == kb,
+    decreases n
+{
+    if n > 0 { lemma_find_key(seq, n - 1, kb); }
+}
+pub open spec fn keys_distinct(seq: Seq<(&String, &Vec<String>)>) -> bool {
+    forall|i: int, j: int| 0 <= i < j < seq.len() ==> str_bytes(#[trigger] seq[i].0@) != str_bytes(#[trigger] seq[j].0@)
+}
+pub proof fn lemma_expected_count(seq: Seq<(&String, &Vec<String>)>, n: int, p: Pair)
+    requires 0 <= n <= seq.len(), keys_distinct(seq)
+    ensures expected_ms(seq, n).count(p) == (
+        if p.0 != SIG() && find_key(seq, n, p.0) != -1 { vals_bytes(seq[find_key(seq, n, p.0)].1@).to_multiset().count(p.1) } else { 0 })
+    decreases n
+{
+    if n > 0 {
+        lemma_expected_count(seq, n - 1, p);
+        lemma_find_key(seq, n - 1, p.0);
+        let kb = str_bytes(seq[n - 1].0@);
+        lemma_pairs_for_count(kb, vals_bytes(seq[n - 1].1@), p);
+    }
+}
+
+pub open spec fn entries_cover(seq: Seq<(&String, &Vec<String>)>, m: Map<String, Vec<String>>) -> bool {
+    seq.no_duplicates()
+    && (forall|i: int| 0 <= i < seq.len() ==> m.contains_key(*(#[trigger] seq[i]).0) && m[*seq[i].0] == *seq[i].1)
+    && (forall|k: String| m.contains_key(k) ==> exists|i: int| 0 <= i < seq.len() && *(#[trigger] seq[i]).0 == k)
+}
+/// Whatever order the HashMap yields its entries in, the multiset collected over all of them is the one the abstract map fixes.
+pub proof fn lemma_expected_is_pair_count(seq: Seq<(&String, &Vec<String>)>, m: Map<String, Vec<String>>, p: Pair)
+    requires entries_cover(seq, m)
+    ensures expected_ms(seq, seq.len() as int).count(p) == pair_count(qmap(m), p)
+{
+    broadcast use axiom_string_of_bytes;
+    assert(keys_distinct(seq)) by {
+        assert forall|i: int, j: int| 0 <= i < j < seq.len() implies str_bytes(#[trigger] seq[i].0@) != str_bytes(#[trigger] seq[j].0@) by {
+            if str_bytes(seq[i].0@) == str_bytes(seq[j].0@) {
+                assert(*seq[i].0 == *seq[j].0);
+                assert(*seq[i].1 == *seq[j].1);
+                assert(seq[i] == seq[j]);
+            }
+        }
+    }
+    lemma_expected_count(seq, seq.len() as int, p);
+    lemma_find_key(seq, seq.len() as int, p.0);
+    if p.0 != SIG() {
+        let j = find_key(seq, seq.len() as int, p.0);
+        if j != -1 {
+            assert(string_of_bytes(p.0) == *seq[j].0);
+            assert(qmap(m).contains_key(p.0));
+        } else {
+            if qmap(m).contains_key(p.0) {
+                let k = string_of_bytes(p.0);
+                let i = choose|i: int| 0 <= i < seq.len() && *(#[trigger] seq[i]).0 == k;
+                assert(str_bytes(seq[i].0@) == p.0);
+            }
+        }
+    }
+}
+
+// ---- the canonical query string is a FUNCTION of the abstract parameter map (C10, C18): uniqueness of the sorted listing ----
+pub proof fn lemma_bytes_lt_irrefl(a: Seq<u8>)
+    ensures !bytes_lt(a, a)
+    decreases a.len()
+{
+    if a.len() > 0 { lemma_bytes_lt_irrefl(a.drop_first()); }
+}
+pub proof fn lemma_bytes_lt_asym(a: Seq<u8>, b: Seq<u8>)
+    ensures !(bytes_lt(a, b) && bytes_lt(b, a))
+    decreases a.len()
+{
+    if a.len() > 0 && b.len() > 0 && a[0] == b[0] { lemma_bytes_lt_asym(a.drop_first(), b.drop_first()); }
+}
+pub proof fn lemma_bytes_lt_trans(a: Seq<u8>, b: Seq<u8>, c: Seq<u8>)
+    requires bytes_lt(a, b), bytes_lt(b, c)
+    ensures bytes_lt(a, c)
+    decreases a.len()
+{
+    if a.len() > 0 && b.len() > 0 && c.len() > 0 && a[0] == b[0] && b[0] == c[0] {
+        lemma_bytes_lt_trans(a.drop_first(), b.drop_first(), c.drop_first());
+    }
+}
+pub proof fn lemma_bytes_lt_total(a: Seq<u8>, b: Seq<u8>)
+    ensures a == b || bytes_lt(a, b) || bytes_lt(b, a)
+    decreases a.len()
+{
+    if a.len() > 0 && b.len() > 0 && a[0] == b[0] {
+        lemma_bytes_lt_total(a.drop_first(), b.drop_first());
+        if a.drop_first() == b.drop_first() {
+            assert(a =~= seq![a[0]] + a.drop_first());
+            assert(b =~= seq![b[0]] + b.drop_first());
+        }
+    } else if a.len() == 0 && b.len() == 0 {
+        assert(a =~= b);
+    }
+}
+pub proof fn lemma_pair_le_total_ordering()
+    ensures vstd::relations::total_ordering(|a: Pair, b: Pair| pair_le(a, b))
+{
+    let leq = |a: Pair, b: Pair| pair_le(a, b);
+    assert forall|x: Pair| #[trigger] leq(x, x) by {}
+    assert forall|x: Pair, y: Pair| #[trigger] leq(x, y) && #[trigger] leq(y, x) implies x == y by {
+        lemma_bytes_lt_asym(x.0, y.0); lemma_bytes_lt_asym(x.1, y.1);
+    }
+    assert forall|x: Pair, y: Pair, z: Pair| #[trigger] leq(x, y) && #[trigger] leq(y, z) implies leq(x, z) by {
+        if x.0 == y.0 && y.0 == z.0 {
+            if x.1 != y.1 && y.1 != z.1 { lemma_bytes_lt_trans(x.1, y.1, z.1); }
+        } else if x.0 == y.0 {
+        } else if y.0 == z.0 {
+        } else {
+            lemma_bytes_lt_trans(x.0, y.0, z.0);
+            lemma_bytes_lt_irrefl(x.0);
+        }
+    }
+    assert forall|x: Pair, y: Pair| #[trigger] leq(x, y) || #[trigger] leq(y, x) by {
+        lemma_bytes_lt_total(x.0, y.0); lemma_bytes_lt_total(x.1, y.1);
+    }
+    assert(vstd::relations::reflexive(leq));
+    assert(vstd::relations::antisymmetric(leq));
+    assert(vstd::relations::transitive(leq));
+    assert(vstd::relations::strongly_connected(leq));
+}
+/// Two canonical query strings of the same abstract map are equal: the result does not depend on HashMap iteration order,
+/// hash seed, or the order in which the parameters arrived.
+pub proof fn lemma_canon_query_unique(m: QMap, s1: Seq<u8>, s2: Seq<u8>)
+    requires is_canon_query(m, s1), is_canon_query(m, s2)
+    ensures s1 == s2 //# C10 C18 name=canonical_query_is_a_function_of_the_parameter_multiset
+{
+    let l1 = choose|l: Seq<Pair>| is_canon_list(m, l) && s1 == render(l);
+    let l2 = choose|l: Seq<Pair>| is_canon_list(m, l) && s2 == render(l);
+    lemma_pair_le_total_ordering();
+    assert(l1.to_multiset() =~= l2.to_multiset()) by {
+        assert forall|p: Pair| l1.to_multiset().count(p) == l2.to_multiset().count(p) by {
+            assert(l1.to_multiset().count(p) == pair_count(m, p));
+            assert(l2.to_multiset().count(p) == pair_count(m, p));
+        }
+    }
+    vstd::seq_lib::lemma_sorted_unique(l1, l2, |a: Pair, b: Pair| pair_le(a, b));
+}
